@@ -28,12 +28,14 @@ PLAN = {
         "edge": {(4, 4): 20000, (3, 5): 20000, (5, 5): 16000},
         "owned_fraction": 0.25,
         "history_fraction": 0.25,
+        "lifetimes": {(2, 2): 8000, (2, 3): 12000, (3, 2): 12000, (3, 3): 24000},
     },
     "thorough": {
         "tree": {(2, 2): 400000, (2, 3): 1500000, (3, 2): 1500000, (3, 3): 2400000, (2, 4): 1200000, (4, 2): 1200000},
         "edge": {(4, 4): 200000, (3, 5): 200000, (5, 5): 160000, (6, 6): 100000, (2, 7): 100000, (4, 6): 100000},
         "owned_fraction": 0.25,
         "history_fraction": 0.25,
+        "lifetimes": {(2, 2): 60000, (2, 3): 100000, (3, 2): 100000, (3, 3): 200000, (2, 4): 100000, (4, 2): 100000},
     },
 }
 COMPONENTS = {
@@ -46,8 +48,8 @@ RULE = (
     "over all shapes; tests: every tree appears, chi-square vs equal frequencies (tree level), Hoeffding bound on every Kirchhoff edge marginal"
 )
 LEVEL_TEXT = (
-    "Statistical: outputs of many seeded RNG streams are compared with the exact uniform-spanning-tree model (all trees enumerated on small grids, Kirchhoff edge marginals on larger ones). False-alarm probability fixed at 1e-9 per invocation; biases of a few percent in any tree class or edge marginal are far outside that band at these sample sizes. A quarter of the streams start from a process that has already generated other grids (shape array re-used in place by the caller or built anew), and are tested as a group of their own. Evidence, not proof. Quick tier: 60 000 / 150 000 / 240 000 draws on 2x2 / 2x3+3x2 / 3x3 (a +-5 % bias on 2x3 trees is rejected at p ~ 1e-15).",
-    "Trusted: NumPy's legacy global RNG is an adequate uniform source; chi-square tail approximation (expected counts >= 300 per cell); Hoeffding's inequality (exact, conservative).",
+    "Statistical: outputs of many seeded RNG streams are compared with the exact uniform-spanning-tree model (all trees enumerated on small grids, Kirchhoff edge marginals on larger ones). False-alarm probability fixed at 1e-9 per invocation; biases of a few percent in any tree class or edge marginal are far outside that band at these sample sizes. A quarter of the streams start from a process that has already generated other grids (shape array re-used in place by the caller or built anew), and are tested as a group of their own; a further group consists of many short process lifetimes (each seeds the RNGs with its own seed and draws its first two mazes only), which is what a job array or a worker per task produces. Evidence, not proof. Quick tier: 60 000 / 150 000 / 240 000 draws on 2x2 / 2x3+3x2 / 3x3 (a +-5 % bias on 2x3 trees is rejected at p ~ 1e-15).",
+    "Trusted: NumPy's legacy global RNG is an adequate uniform source; chi-square tail approximation (expected counts >= 125 per cell); Hoeffding's inequality (exact, conservative).",
 )
 
 
@@ -56,6 +58,20 @@ def _draw_chunk(shape, seed, mode, count):  # noqa: C901
 
     from mdsim.seams.rng import SimRNG, seed_real
 
+    if mode == "lifetimes":
+        # many short process lifetimes (a job array, one worker per task): each lifetime seeds the RNGs with its own seed, as the
+        # library's workers do, and draws only its first two mazes; whatever the generator reads besides the seeded RNGs starts
+        # from the same point in every lifetime
+        counts = {}
+        for i in range(count // 2):
+            part = core.fork_call(_first_draws, (list(shape), core.H("c19-lifetime", seed, i) % 2**32, 2), timeout=120.0)
+            if not isinstance(part, dict) or "__harness__" in part:
+                raise RuntimeError("lifetime stage failed: " + str(part)[:300])
+            if "raised" in part:
+                raise RuntimeError(f"gen_wilson raised {part['raised']}: {part['msg']}")
+            for k, v in part["counts"].items():
+                counts[k] = counts.get(k, 0) + v
+        return counts
     seed_real(seed)
     counts: dict = {}
     gs = np.array(shape)
@@ -94,6 +110,25 @@ def _draw_chunk(shape, seed, mode, count):  # noqa: C901
                 k = m.connection_list.tobytes().hex()
                 counts[k] = counts.get(k, 0) + 1
     return counts
+
+
+def _first_draws(shape, seed, k):
+    from maze_dataset.generation.generators import LatticeMazeGenerators
+
+    from mdsim.seams.rng import seed_real
+
+    seed_real(seed)
+    counts: dict = {}
+    try:
+        with _CountedDraws() as cd:
+            for _ in range(k):
+                cd.n = 0
+                m = LatticeMazeGenerators.gen_wilson(np.array(shape))
+                key = m.connection_list.tobytes().hex()
+                counts[key] = counts.get(key, 0) + 1
+    except Exception as e:  # noqa: BLE001
+        return {"raised": type(e).__name__, "msg": str(e)[:200]}
+    return {"counts": counts}
 
 
 WALK_BUDGET = 200000  # random draws within ONE gen_wilson call on a grid of <= 36 cells; a correct loop-erased walk needs a few
@@ -190,10 +225,17 @@ def _n_tests(plan):
     edges = 0
     for level in ("tree", "edge"):
         for shape in plan[level]:
-            for _mode in ("real", "owned", "history"):
+            for _mode in ("real", "owned", "history") + (("lifetimes",) if level == "tree" else ()):
                 groups += 3 if level == "tree" else 0
                 edges += len(ust.lattice_edges(*shape))
     return groups + edges
+
+
+def _chunk_outcome(shape, seed, mode, count):
+    try:
+        return {"counts": _draw_chunk(shape, seed, mode, count)}
+    except Exception as e:  # noqa: BLE001 - the generator's exception is the finding; harness trouble surfaces as StageFailure
+        return {"raised": type(e).__name__, "msg": str(e)[:200]}
 
 
 def run(spec: dict, ctx) -> dict:
@@ -211,7 +253,16 @@ def run(spec: dict, ctx) -> dict:
     full = spec["full"]
     counts: dict = {}
     for seed, cnt in full["chunks"]:
-        for k, v in _draw_chunk(full["shape"], seed, full["mode"], cnt).items():
+        # every chunk is one process lifetime, in the replay as in the search: state the library keeps per process (a module-level
+        # generator, a cache) starts from the same point in each of them
+        part = core.stage(_chunk_outcome, full["shape"], seed, full["mode"], cnt, timeout=600.0)
+        if "raised" in part:
+            log = core.EventLog()
+            log.add("raised", part["raised"])
+            kind = "C19.walk-does-not-terminate" if part["raised"] == "DrawBudgetExceeded" else "C19.generator-raised"
+            return core.violation(kind, f"gen_wilson{tuple(full['shape'])} [{full['mode']}] raised {part['raised']} in the chunk with seed {seed}: {part['msg']}", log, spec=spec)
+        part = part["counts"]
+        for k, v in part.items():
             counts[k] = counts.get(k, 0) + v
     v, summary = evaluate(tuple(full["shape"]), full["mode"], counts, full["level"], full["alpha_each"])
     log = core.EventLog()
@@ -228,7 +279,10 @@ def execute_all(pool, rng: random.Random, tier: str, n: int):
     meta = []
     for level in ("tree", "edge"):
         for shape, total in plan[level].items():
-            for mode, tot in (("real", total), ("owned", int(total * plan["owned_fraction"])), ("history", int(total * plan["history_fraction"]))):
+            modes = [("real", total), ("owned", int(total * plan["owned_fraction"])), ("history", int(total * plan["history_fraction"]))]
+            if level == "tree":
+                modes.append(("lifetimes", plan["lifetimes"][shape]))
+            for mode, tot in modes:
                 left = tot
                 while left > 0:
                     cnt = min(CHUNK, left)
